@@ -14,25 +14,28 @@
 #include "mpsc_fifo.h"
 #include "mpsc_relaxed_fifo.h"
 #include "rt.h"
+
+// every piece of per-execution state lives in one section so that the in-process (libFuzzer) front end can reset it
+#define DSVAR __attribute__((section("ds_state")))
 #include "spsc_fifo.h"
 #include "work_queue.h"
 #include "work_stealing_deque.h"
 
 #define MAXV 8192
-static volatile long ds_work_cell[MAX_FIBERS];
+static DSVAR volatile long ds_work_cell[MAX_FIBERS];
 static void ds_work(int t, int n) {
   for (int i = 0; i < n; i++) ds_work_cell[t] += i;
 }
 
 // ---- ghost bookkeeping shared by the queue-like harnesses -------------------
-static uint8_t v_pushed[MAXV], v_taken[MAXV];
-static uint64_t v_push_inv[MAXV], v_push_resp[MAXV], v_take_inv[MAXV], v_take_resp[MAXV];
-static int v_pusher[MAXV], v_taker[MAXV];
-static long next_val = 1;
-static uint64_t gclock;
-static long n_taken, n_pushed, n_empty, n_overlap_ops;
-static int inflight_takes;
-static int ops_in_flight;
+static DSVAR uint8_t v_pushed[MAXV], v_taken[MAXV];
+static DSVAR uint64_t v_push_inv[MAXV], v_push_resp[MAXV], v_take_inv[MAXV], v_take_resp[MAXV];
+static DSVAR int v_pusher[MAXV], v_taker[MAXV];
+static DSVAR long next_val = 1;
+static DSVAR uint64_t gclock;
+static DSVAR long n_taken, n_pushed, n_empty, n_overlap_ops;
+static DSVAR int inflight_takes;
+static DSVAR int ops_in_flight;
 
 GHOST static long gv_new(int t) {
   vs_rt_enter();
@@ -150,6 +153,16 @@ static void lin_verdict(const char* what, int model, int cap, int excuse) {
   vs_rt_exit();
 }
 
+// in-process front end: forget everything about the previous execution
+extern char __start_ds_state[], __stop_ds_state[];
+extern void hz_reset(void);
+void ds_reset(void) {
+  memset(__start_ds_state, 0, (size_t)(__stop_ds_state - __start_ds_state));
+  next_val = 1;
+  hz_reset();
+  lin_reset();
+}
+
 // ---- thread plumbing --------------------------------------------------------
 typedef struct ds_harness {
   void (*setup)(void);
@@ -183,9 +196,9 @@ static void ds_run(const ds_harness_t* h) {
 }
 
 // =============================================================== C02(a) deque
-static wsd_work_stealing_deque_t* dq;
-static long dq_steal_ok, dq_steal_abort, dq_pop_abort, dq_grow;
-static long dq_pushed_by_owner, dq_taken_completed;
+static DSVAR wsd_work_stealing_deque_t* dq;
+static DSVAR long dq_steal_ok, dq_steal_abort, dq_pop_abort, dq_grow;
+static DSVAR long dq_pushed_by_owner, dq_taken_completed;
 
 GHOST static void gdq_pop_empty(void) {
   vs_rt_enter();
@@ -276,12 +289,12 @@ static void deque_entry(void* a) {
 const harness_t h_deque = {"deque", 0, 0, 0, 0, 0, deque_entry};
 
 // =============================================================== C13 MPMC FIFO
-static mpmc_fifo_t mf;
+static DSVAR mpmc_fifo_t mf;
 static _Atomic(hazard_pointer_thread_record_t*) mf_head;
-static hazard_pointer_thread_record_t* mf_rec[MAX_FIBERS + 1];
-static mpmc_fifo_node_t* mf_free[MAX_FIBERS + 1];
-static int mf_recycle, mf_far;
-static long mf_recycled, mf_reused, mf_gc;
+static DSVAR hazard_pointer_thread_record_t* mf_rec[MAX_FIBERS + 1];
+static DSVAR mpmc_fifo_node_t* mf_free[MAX_FIBERS + 1];
+static DSVAR int mf_recycle, mf_far;
+static DSVAR long mf_recycled, mf_reused, mf_gc;
 
 static void mf_gc_fn(void* gc_data, hazard_node_t* node) {
   (void)gc_data;
@@ -393,11 +406,11 @@ const harness_t h_mpmc = {"mpmc", 0, 0, 0, 0, 0, mpmc_entry};
 
 // =============================================================== C15 MPSC / SPSC / relaxed MPSC
 enum { Q_MPSC = 0, Q_SPSC = 1, Q_MPSCR = 2 };
-static int q_kind;
-static mpsc_fifo_t q_mpsc;
-static spsc_fifo_t q_spsc;
-static mpscr_fifo_t* q_mpscr;
-static long q_peeks;
+static DSVAR int q_kind;
+static DSVAR mpsc_fifo_t q_mpsc;
+static DSVAR spsc_fifo_t q_spsc;
+static DSVAR mpscr_fifo_t* q_mpscr;
+static DSVAR long q_peeks;
 
 static void q_setup(void) {
   q_kind = (int)cfg_get("qkind", 0);
@@ -524,9 +537,9 @@ static void q_entry(void* a) {
 const harness_t h_queue = {"queue", 0, 0, 0, 0, 0, q_entry};
 
 // =============================================================== C16 ring buffer
-static lockfree_ring_buffer_t* rb;
-static int rb_cap;
-static long rb_push_fail, rb_pop_fail;
+static DSVAR lockfree_ring_buffer_t* rb;
+static DSVAR int rb_cap;
+static DSVAR long rb_push_fail, rb_pop_fail;
 static void rb_setup(void) {
   int lg = (int)cfg_get("cap_log2", 1);
   rb_cap = 1 << lg;
@@ -607,11 +620,11 @@ static void rb_entry(void* a) {
 const harness_t h_ring = {"ring", 0, 0, 0, 0, 0, rb_entry};
 
 // =============================================================== C17 work queue
-static work_queue_t wq;
+static DSVAR work_queue_t wq;
 #define MAX_SESS 512
-static uint64_t sess_start[MAX_SESS], sess_end[MAX_SESS];
-static int n_sess;
-static long wq_queued, wq_started;
+static DSVAR uint64_t sess_start[MAX_SESS], sess_end[MAX_SESS];
+static DSVAR int n_sess;
+static DSVAR long wq_queued, wq_started;
 
 GHOST static int gwq_session_begin(void) {
   vs_rt_enter();
@@ -686,11 +699,11 @@ const harness_t h_workq = {"workq", 0, 0, 0, 0, 0, wq_entry};
 
 // =============================================================== C20(a) LIFO, dist FIFO, flushable stack
 enum { D_LIFO = 0, D_DIST = 1, D_STACK = 2 };
-static int d_kind;
-static mpmc_lifo_t d_lifo;
+static DSVAR int d_kind;
+static DSVAR mpmc_lifo_t d_lifo;
 static dist_fifo_t d_dist __attribute__((aligned(64)));
-static mpmc_stack_t d_stack;
-static long d_retry, d_reuse;
+static DSVAR mpmc_stack_t d_stack;
+static DSVAR long d_retry, d_reuse;
 
 static void d_setup(void) {
   d_kind = (int)cfg_get("dkind", 0);
